@@ -251,3 +251,57 @@ def run(ctx):
                 f.write(b0)
         ctx.rm(cache.rsplit("/", 1)[0])
     ctx.count("histories", nh)
+    restore_after_loss(ctx, rng, modes)
+
+
+def restore_after_loss(ctx, rng, modes):
+    """In ONE process: bytes are stored, the single copy goes away (clear, remove_hash, the file / its shard directory /
+    the algorithm's whole tree removed from outside), the same bytes are stored again. The second store must succeed,
+    return the same address and leave exactly one copy that reads back - whatever the process remembers about
+    directories or addresses it has already dealt with."""
+    import shutil
+    for mode in modes:
+        for loss in ("clear", "remove_hash", "unlink-file", "rm-leaf-shard", "rm-top-shard", "rm-algo-tree"):
+            for ep in ("write", "write_hash", "writer_key", "writer_hash_size"):
+                cache = ctx.new_cache()
+                algo = rng.choice(["sha256", "sha512", "sha1"])
+                data = rng.randbytes(rng.choice([1, 300, 5000]))
+                q1 = make_req(ctx, rng, cache, rng.choice(["write", "write_hash", "writer_key"]), algo, "first", data)
+                q2 = make_req(ctx, rng, cache, ep, algo, "second", data)
+                w1 = ctx.call(mode, q1)
+                want = ref.sri(algo, data)
+                det = {"steps": [[mode, q1], ["harness", loss], [mode, q2]], "mode": mode}
+                if not ev.is_ok(w1):
+                    ctx.inconc(f"restore-after-loss: first store failed: {ev.brief(w1)}")
+                    continue
+                a, hx = ref.sri_address(want)
+                cp = ref.content_path(cache, a, hx)
+                if loss == "clear":
+                    ctx.call(mode, {"op": "clear", "cache": cache})
+                elif loss == "remove_hash":
+                    ctx.call(mode, {"op": "remove_hash", "cache": cache, "sri": want})
+                elif loss == "unlink-file":
+                    os.unlink(cp)
+                elif loss == "rm-leaf-shard":
+                    shutil.rmtree(os.path.dirname(cp))
+                elif loss == "rm-top-shard":
+                    shutil.rmtree(os.path.dirname(os.path.dirname(cp)))
+                else:
+                    shutil.rmtree(os.path.join(cache, "content-v2", a))
+                w2 = ctx.call(mode, q2)
+                ctx.count("restores_after_loss")
+                ctx.case(distinct_key=("restore-after-loss", mode, loss, ep))
+                if not ev.is_ok(w2) or w2["ok"].get("sri") != want:
+                    ctx.violation(f"restore-after-loss|{mode}|{loss}|{ep}|{ev.variant(w2)}",
+                                  f"bytes stored, lost through {loss}, stored again by {ep} in the same {mode} process: {ev.brief(w2)} "
+                                  f"(the address is {want})", det)
+                    ctx.rm(cache.rsplit("/", 1)[0])
+                    continue
+                cs = census(cache)
+                rd = ctx.call(mode, {"op": "read_hash", "cache": cache, "sri": want})
+                rel = os.path.relpath(cp, cache)
+                if set(cs) != {rel} or cs[rel][0] != len(data) or not ev.is_ok(rd) or drv.data_bytes(rd["ok"]["data"]) != data:
+                    ctx.violation(f"restore-after-loss|{mode}|{loss}|{ep}|copy",
+                                  f"after loss through {loss} and a second {ep} the content area holds {sorted(cs)} and "
+                                  f"read_hash gives {ev.brief(rd)}; expected the one copy {rel}", det)
+                ctx.rm(cache.rsplit("/", 1)[0])
